@@ -30,7 +30,7 @@
    it equals the analytic derivative 2 Re<psi|H|d psi> * scale_factor for gates in the middle of deeper
    circuits with scale_factor != 1, random initial states and observables.
 """
-STATIC = ["C06/Props", "C06/PropsShift", "Base/TrigDeriv", "Base/TrigMat", "C06/PropsDerived"]
+STATIC = ["C06/Props", "C06/PropsShift", "Base/TrigDeriv", "Base/TrigMat", "C06/PropsDerived", "C06/PropsLayout"]
 import itertools
 import random
 from fractions import Fraction
@@ -38,7 +38,7 @@ from fractions import Fraction
 import numpy as np
 
 from lib import qtrace, vcore, symtrace as st
-from harness import c06_derived
+from harness import c06_derived, c06_repr
 from lib.symtrace import PI
 
 HEADER = "From Coquelicot Require Import Coquelicot.\n" + qtrace.COQ_HEADER + "From QV Require Import Base.TrigDeriv.\nImport ListNotations.\n"
@@ -886,7 +886,11 @@ def probes(run, rng):
                  "[fSim(fixed), RX, fSim, RY]: " + "; ".join(errs), {"errors": errs})
 
 
-RULE = ("derived circuits: 24 fixed + random sequences of 1-4 operations (invert, +, copy, on_qubits, fuse) over sources of 2-7 gates "
+RULE = ("representations: 20 fixed + random circuits of 3-6 gates (Unitary 1q/2q, GeneralizedfSim, RX, fixed RY/Unitary, H, CNOT) whose matrices "
+        "are constructed and updated (1-3 steps; gate setter / list / dict / flat list / flat array; on the circuit, its inverse, deep copy, copy, "
+        "fused circuit) in dtype int64/float32/float64/complex64/complex128 x layout C/F/transposed view/strided/read-only/nested list, "
+        "construction and update independent; read-back, operator, derived views, flat round trips (also of the inverse), stored layout vs "
+        "C06/Layout.flat_read, inputs unmodified; derived circuits: 24 fixed + random sequences of 1-4 operations (invert, +, copy, on_qubits, fuse) over sources of 2-7 gates "
         "(22 parametrised classes, Unitary, fixed gates, generic controls, trainable=False, updated) x 4 formats, exact vs C06/Derived.deval "
         "and C06/Params; bookkeeping: random circuits of 12 gate kinds (1/2/3/matrix parameters, trainable and fixed interleaved) x 4 input formats, "
         "integer values, compared exactly with the Coq model; views: 8 derived views after an update vs a freshly built circuit; "
@@ -910,6 +914,7 @@ def main(run):
     views(run, rng, 120 if q else 1500)
     independence(run, random.Random(run.seed + 77), 80 if q else 800)
     derived(run, random.Random(run.seed + 606), 220 if q else 2200)
+    c06_repr.stream(run, random.Random(run.seed + 616), 170 if q else 1700)
     shift_obligations(run, rng)
     shift_general(run, random.Random(run.seed + 5))
     shift_implementation(run, rng, 25 if q else 300)
@@ -938,6 +943,13 @@ def main(run):
 def replay(run, data):
     rng = random.Random(data.get("seed", 0))
     rp = data["replay"]
+    if "repr" in rp:
+        probs = c06_repr.replay_case(run, rp["repr"])
+        for k, w in probs:
+            print("replay:", k, w)
+        if probs:
+            run.find(data["key"], probs[0][1], rp)
+        return run.finish(rule="replay of one recorded representation history")
     if "derived" in rp:
         r = c06_derived.run_case(rp["derived"])
         probs = [r["problem"]] if "problem" in r else list(r["problems"])
